@@ -87,6 +87,11 @@ def run_cfg(chk, facts, cfg):
     for nm in ('Harmonic', 'Geometric', 'Paired'):
         adt = sm.adt(nm)
         if chk.anchor(nm + sfx, adt):
+            try:
+                sm.wrapper_state(adt, arith('_probe'))
+            except Unsupported as e:
+                chk.ob('%s:%s:layout%s' % (PID, nm, sfx), 'layout', '%s wraps one statistics state' % nm, False, str(e), adt['span'][0])
+                continue
             types.append((nm, adt, (lambda adt: lambda t: sm.wrapper_state(adt, arith(t)))(adt)))
     uadt = sm.adt('Unpaired')
     if chk.anchor('Unpaired' + sfx, uadt):
@@ -105,7 +110,11 @@ def run_cfg(chk, facts, cfg):
 
     for name, adt, mk in types:
         path = adt['path']
-        a, b = mk('_x'), mk('_y')
+        try:
+            a, b = mk('_x'), mk('_y')
+        except Unsupported as e:
+            chk.ob('%s:%s:layout%s' % (PID, name, sfx), 'layout', 'statistic fields of %s' % name, False, str(e), adt['span'][0])
+            continue
         va, vb = alpha_vec(a), alpha_vec(b)
         cnt['fields'] += len(va)
         # default is the neutral element
